@@ -120,6 +120,7 @@ def expand(chunk):
             for kind in ("create", "create_as", "drop", "create_default"):
                 yield {"ddl": kind, "d": d}
             yield {"factory": True, "d": d}
+            yield {"dml_tail": True, "d": d}
         return
     n = chunk["n"]
     for path in itertools.product(CONSTRUCTS, repeat=n):
@@ -334,6 +335,72 @@ def run_ddl(case, res):
                 res.violate("C08|ddl|string-escape|create", "DEFAULT string is not escaped for MySQL", dialect=d, sql=sql)
 
 
+def run_dml_tail(case, res):
+    """DML statements with a distinct constant in every clause (SET, VALUES, WHERE, ON CONFLICT .. WHERE / DO UPDATE .. WHERE,
+    RETURNING, UPDATE..FROM / JOIN .. ON): under a parameterizer every one of them is written as the
+    dialect's placeholder - the clause reached last (rendered by the dialect's own override) follows the same convention as the
+    statement's head - and the value list carries them in placeholder order"""
+    from pypika_tortoise import Table
+
+    d = case["d"]
+    Q = fp.QCLS[d]
+    lexd = "sqlite" if d == "generic" else d
+    t, u = Table("t"), Table("u")
+    res.nontrivial = 1
+    res.states.append(h64(json.dumps(["dml_tail", d])))
+    stmts = {
+        "update": lambda: Q.update(t).set(t.a, 101).set(t.b, t.b + 102).where(t.c == 103).where(t.d.isin([104, 105])),
+        "update_from": lambda: Q.update(t).from_(u).set(t.a, u.x + 101).where(t.id == u.tid).where(u.y > 102),
+        "update_join": lambda: Q.update(t).join(u).on((t.id == u.tid) & (u.y > 101)).set(t.a, 102).where(t.c == 103),
+        "insert": lambda: Q.into(t).columns("a", "b").insert(101, 102).insert(103, 104),
+        "insert_select": lambda: Q.into(t).columns("a").from_(u).select(u.x + 101).where(u.y == 102),
+        "delete": lambda: Q.from_(t).delete().where(t.c == 101).where(t.d.between(102, 103)),
+        "upsert": lambda: Q.into(t).columns("id", "a").insert(101, 102).on_conflict("id").do_update("a", 103),
+        "upsert_wheres": lambda: Q.into(t).columns("id", "a").insert(101, 102).on_conflict("id").where(t.a > 103).do_update("a", 104).where(t.a < 105),
+    }
+    if d == "postgresql":
+        stmts.update({
+            "update_returning": lambda: Q.update(t).set(t.a, 101).where(t.c == 102).returning(t.a + 103, t.id),
+            "insert_returning": lambda: Q.into(t).columns("a").insert(101).returning(t.a * 102, (t.a - 103).as_("m")),
+            "delete_returning": lambda: Q.from_(t).delete().where(t.c == 101).returning(t.a + 102),
+            "upsert_returning": lambda: Q.into(t).columns("id", "a").insert(101, 102).on_conflict("id").do_update("a", 103).returning(t.a + 104),
+            "update_from_returning": lambda: Q.update(t).from_(u).set(t.a, u.x + 101).where(t.id == u.tid).returning(t.a + 102, u.x * 103),
+        })
+    for name, mk in stmts.items():
+        try:
+            o = mk()
+            inl, _ = prog.render(o, d)
+            par, vals = prog.render(o, d, param=True)
+            ti, tp = lex(inl, lexd), lex(par, lexd)
+        except Exception as e:
+            res.violate("C08|dml_tail|%s|raises|%s" % (name, type(e).__name__), "a DML statement of the menu raised", dialect=d, error=str(e)[:200])
+            continue
+        res.transitions += 2
+        res.outcomes.append(h64(par))
+        marks = [tk.value for tk in ti if tk.kind == "NUM" and 101 <= tk.value <= 105]
+        left = [(tk.value, clause_word(tp, i)) for i, tk in enumerate(tp) if tk.kind == "NUM" and 101 <= tk.value <= 105]
+        n_par = sum(1 for tk in tp if tk.kind == "PAR")
+        if not marks:
+            res.violate("C08|dml_tail|%s|no-constants" % name, "the inline statement carries none of its constants", dialect=d, sql=inl)
+        elif left and n_par:
+            res.violate("C08|dml_tail|placeholder-style|%s|%s" % (d, left[0][1]), "under a parameterizer part of the statement writes its constants inline "
+                        "while the rest uses placeholders", dialect=d, stmt=name, inline_constants=left, sql=par, values=fp.vrepr(vals))
+        elif n_par and [v for v in vals if isinstance(v, int) and not isinstance(v, bool) and 101 <= v <= 105] != marks:
+            res.violate("C08|dml_tail|values-order|%s" % d, "the value list does not carry the constants in the order they are written", dialect=d, stmt=name,
+                        sql=par, inline=inl, values=fp.vrepr(vals))
+        mis = values_misaligned(ti, tp, list(vals or []))
+        if mis:
+            res.violate("C08|dml_tail|values-misaligned|%s" % d, "the parameter list does not follow the order of the placeholders: " + mis, dialect=d, stmt=name, sql=par,
+                        values=fp.vrepr(vals))
+
+
+def clause_word(toks, idx):
+    for tk in reversed(toks[:idx]):
+        if tk.kind == "WORD" and tk.value in ("SET", "VALUES", "WHERE", "RETURNING", "ON", "UPDATE", "SELECT", "CONFLICT", "KEY", "FROM", "IN", "BETWEEN"):
+            return tk.value
+    return "START"
+
+
 def run_factory(case, res):
     """tables handed out by <Dialect>Query.Table / .Tables carry the dialect class: statements started from any of them
     (select / update / insert on the table) render exactly like the same statement started from the dialect class"""
@@ -374,6 +441,9 @@ def run_case(case):
         return res
     if "factory" in case:
         run_factory(case, res)
+        return res
+    if "dml_tail" in case:
+        run_dml_tail(case, res)
         return res
     leaf, path, inner_cls = case["leaf"], case["path"], case["inner"]
     res.states.append(h64(json.dumps([leaf, path, inner_cls])))
